@@ -50,6 +50,9 @@ def learners(seed):
         ("MixtureModelClassifier[similarities]", lambda: MixtureModelClassifier(mixture_model=GaussianMixture(n_components=2, random_state=seed), weight_mode="similarities",
                                                                                  classes=cl, class_prior=[1.0, 2.0], random_state=seed), "clf", ("class_prior", 0.5)),
         ("NICKernelRegressor[gamma=0.7]", lambda: NICKernelRegressor(metric_dict={"gamma": 0.7}, random_state=seed), "reg", ("kappa_0", 1.0)),
+        ("NICKernelRegressor[polynomial]", lambda: NICKernelRegressor(metric="polynomial", metric_dict={"degree": 2, "coef0": 1.0}, random_state=seed), "reg", ("kappa_0", 1.0)),
+        ("NadarayaWatsonRegressor[laplacian]", lambda: NadarayaWatsonRegressor(metric="laplacian", metric_dict={}, random_state=seed), "reg", ("metric", "laplacian")),
+        ("ParzenWindowClassifier[polynomial]", lambda: ParzenWindowClassifier(classes=cl, metric="polynomial", metric_dict={"degree": 2}, random_state=seed), "clf", ("n_neighbors", 3)),
         ("NadarayaWatsonRegressor[gamma=0.5]", lambda: NadarayaWatsonRegressor(metric_dict={"gamma": 0.5}, random_state=seed), "reg", ("metric", "rbf")),
         ("AnnotatorLogisticRegression", lambda: AnnotatorLogisticRegression(classes=cl, n_annotators=2, max_iter=5, random_state=seed), "mclf", ("weights_prior", 2)),
         ("AnnotatorLogisticRegression[solver_dict]", lambda: AnnotatorLogisticRegression(classes=cl, n_annotators=2, max_iter=5, solver_dict={"xtol": 1e-6}, random_state=seed), "mclf", ("tol", 1e-3)),
